@@ -38,6 +38,8 @@ func init() {
 	addRule("C03", "qualcount", 1, ruleQualCount)
 	addRule("C06", "clipordered", 1, ruleClipOrdered)
 	addRule("C15", "trapcount", 3, ruleTrapCount)
+	addRule("C05", "emptyalign", 4, ruleEmptyAlign)
+	addRule("C09", "nilalphaarg", 6, ruleNilAlphaArg)
 	for _, id := range []string{"C08", "C09"} {
 		addRule(id, "argroles", 12, ruleArgRoles)
 	}
@@ -55,7 +57,7 @@ func init() {
 		c.Obs = kept
 	})
 	extra := map[string]string{
-		"C05": "tables/alphabet (the clauses complement-closed and pairing of C17's rule): in every built-in complementing alphabet each letter, in both cases, is paired with a letter of the same alphabet, and the pairing strings are an involution that preserves case — a nucleotide alphabet wired to the other molecule's pairing leaves a letter without a partner, and its reverse complement is not a letter.",
+		"C05": "emptyalign: RevComp and Reverse of the column-major alignments read no fixed column (Rows(), Seq[k]) on a path every call takes, so the alignment without columns is handled by the walk that finds nothing. tables/alphabet (the clauses complement-closed and pairing of C17's rule): in every built-in complementing alphabet each letter, in both cases, is paired with a letter of the same alphabet, and the pairing strings are an involution that preserves case — a nucleotide alphabet wired to the other molecule's pairing leaves a letter without a partner, and its reverse complement is not a letter.",
 		"C08": "argroles: every call of an aligner body from its Align method passes letters that come from the reference parameter first and from the query parameter second (the matrix is indexed [reference][query] and need not be symmetric). argmaxrunning: every scan in an aligner body that stores its counter under a comparison of the element it looks at (the row of the best last-column cell in the fitted aligners, the layer of the best end-cell score in NWAffine) compares the element with the running best — the variable receiving the element in the same arm — or with the element at the position stored so far, and stores on the arm where the element is the larger.",
 		"C14": "reset (as C11): Clear assigns every per-cycle field of the sorter the filter pushes its hits into — PALS.Align reuses one sorter for both strands, and a stale in-memory flag makes the second strand's hits vanish inside it. scansargument: every letter ForEachKmerOf reads (in the function, its closures and helpers it hands the sequence to) is a letter of its sequence parameter, not of the receiver's sequence (the filter looks up the query's words through ForEachKmerOf; words built from the target's letters lose matches at the start of the query; C10 decides the same through its rule foreignseq).",
 		"C01": "eofpending: as C04. headeragree: the helper that writes the FASTQ label line is given the same arguments (apart from the prefix byte) for the '@' line and for the '+' line, since the reader accepts '+' text only if it equals the whole '@' line.",
@@ -64,7 +66,7 @@ func init() {
 		"C07": "rangeinclusive: as C06 (Multi.Subseq and Multi.Truncate go through it row by row). carvecap also recognises a column cut as the tail of a block that grows round the loop by append.",
 		"C10": "kmerspace: in ForEachKmerOf every integer is classed as a subscript of the whole sequence (start, end, what subscripts s.Seq), a subscript of a cut s.Seq[lo:hi] with a low bound, or neutral; no comparison relates the two kinds and the position handed to the callback is a subscript of the whole sequence. indexspace also accepts parameters used as the bounds of a cut of s.Seq.",
 		"C03": "qualcount: the FASTQ reader decodes the scores from the very slice whose length a dominating comparison found equal to the number of letters read (not from a value derived from it afterwards). recovercover is positional: a call that can reach an explicit panic, and the panic itself, are covered only by a defer of the converter that dominates them.",
-		"C09": "argroles: as C08. validateupfront: NW, NWAffine, Fitted and FittedAffine test the letter indices of each sequence, with an error return, in a loop of its own (depth one), not only inside the nested fill loop, which does not run when the other sequence is empty. The local aligners validate in the fill only, on the pinned tree as well, and are not instances.",
+		"C09": "nilalphaarg: no method is called on the query's alphabet, in Align or in a private helper it is handed to, where it is not known to be non-nil. argroles: as C08. validateupfront: NW, NWAffine, Fitted and FittedAffine test the letter indices of each sequence, with an error return, in a loop of its own (depth one), not only inside the nested fill loop, which does not run when the other sequence is empty. The local aligners validate in the fill only, on the pinned tree as well, and are not instances.",
 		"C13": "dirremoval: every removal of the sorter's temporary directory is os.RemoveAll (os.Remove fails silently when run files of an earlier cycle are still there).",
 		"C15": "trapcount: from every insertion into the merger's trapezoid list (a retired trapezoid joined at the head, a trapezoid split by prependFrontTo) every path to a return or to the next insertion increments trapCount, the number of trapezoids FinaliseMerge hands out. queryintact: every RevComp or Reverse reached from PALS.Align or PALS.AlignFrom is applied to a value that is a copy (the result of Clone) on every path, never to a sequence held in a field of the aligner.",
 		"C17": "marklast: in NewPairing no copy into (or assignment of) the complement table can run after a store that sets the high bit of one of its entries.",
